@@ -7,4 +7,9 @@ open Wasp.Generated
     not return before writer.Schedule has queued the offset -/
 theorem handOverIsSynchronous : Facts.handOverIsSynchronous = true := by decide
 
+/-- … and the writer's side of the hand-over returns only once the offset is in its queue (or the node is stopping):
+    no timer, no `default` — otherwise the consumer would commit an offset nobody holds -/
+theorem writerScheduleQueuesOrStops : Facts.writerScheduleQueuesOrStops = true := by decide
+theorem writerSendQueuesOrStops : Facts.writerSendQueuesOrStops = true := by decide
+
 end Wasp.SourceFacts.C15
